@@ -13,7 +13,7 @@ LEAN_MODULES = ["FimVerif.Proofs.C12"]
 P = "FimVerif.C12."
 THEOREMS = [P + t for t in (
     "delegations_roundtrip_partial", "delegations_roundtrip_counterexample", "det_roundtrip",
-    "rejects_mixed_details", "rejects_mixed_container", "rejects_mixed_pools", "rejects_duplicate_id",
+    "rejects_mixed_details", "rejects_mixed_container", "rejects_mixed_pools", "decode_rejects_other_type", "rejects_duplicate_id",
     "rejects_details_on_reference", "decode_rejects_details_on_reference",
     "generate_ok_of_noClash", "generate_rejects_clash", "incorporate_entries", "pools_roundtrip",
     "pools_roundtrip_text_partial", "pools_roundtrip_text_counterexample")]
@@ -560,13 +560,6 @@ def det_eq(a, b):
     return type(a) is type(b) and a.__dict__ == b.__dict__ and all(type(x) is type(y) for x, y in zip(a.__dict__.values(), b.__dict__.values()))
 
 
-def feature_of(specs, K):
-    """what is special about a well-formed input (part of the signature)"""
-    if any(s.get("pool") == K.SINGLE_POOL_NAME and s["fmt"] == "PoolDefinition" for s in specs):
-        return "definition-of-pool-named-single-sentinel"
-    return "general"
-
-
 def raises(fn):
     try:
         fn()
@@ -859,6 +852,11 @@ def check_topology(case, res):
                               expected=want[cty], observed=pools_canon(q, cl))
     except Exception as e:
         res.violation("C12:topology:raises:" + err_kind(e), "single_delegation / read back raised %s: %s" % (type(e).__name__, e), case)
+    finally:
+        try:
+            topo.graph_model.delete_graph()     # the in-memory store is shared: keep it from growing with every case
+        except Exception:
+            pass
     return case
 
 
